@@ -169,6 +169,12 @@ func rfc7946(v interface{}) string {
 	return chk(c, d)
 }
 
+// recordedEmptyBSON: the recorded finding is a refusal to decode the document whose coordinates member the driver
+// omitted - not any other error, and not a value that differs.
+func recordedEmptyBSON(err error) bool {
+	return err != nil && strings.Contains(err.Error(), "cannot decode")
+}
+
 func emptyNonCollection(g orb.Geometry) bool {
 	switch v := g.(type) {
 	case orb.MultiPoint:
@@ -258,7 +264,7 @@ func checkGeometry(c *mc.Ctx, g orb.Geometry) {
 	bg := &geojson.Geometry{}
 	if err := bson.Unmarshal(bb, bg); err != nil {
 		cl := "bson-roundtrip"
-		if emptyNonCollection(refgeom.Normal(g, false)) {
+		if emptyNonCollection(refgeom.Normal(g, false)) && recordedEmptyBSON(err) {
 			cl = "bson-roundtrip:empty-coordinates-omitted"
 		}
 		c.Failf(cl, "bson.Unmarshal: %v | %s", err, desc)
@@ -302,7 +308,7 @@ func checkGeometry(c *mc.Ctx, g orb.Geometry) {
 		}
 		if err != nil || nf(h.get(d)) != want {
 			cl := "helper-bson"
-			if emptyNonCollection(refgeom.Normal(g, false)) {
+			if emptyNonCollection(refgeom.Normal(g, false)) && recordedEmptyBSON(err) {
 				cl = "bson-roundtrip:empty-coordinates-omitted"
 			}
 			c.Failf(cl, "typed helper %T through BSON: %v, %v | %s", h.v, h.get(d), err, desc)
